@@ -141,6 +141,37 @@ class SwapCommutative(ast.NodeTransformer):
         return node
 
 
+class RenameLocals(ast.NodeTransformer):
+    """rename every local variable (not parameters, not nested function names, not globals) of every function: x -> x_rn"""
+
+    def visit_FunctionDef(self, node):
+        params = {a.arg for a in node.args.args + node.args.kwonlyargs}
+        if node.args.vararg:
+            params.add(node.args.vararg.arg)
+        if node.args.kwarg:
+            params.add(node.args.kwarg.arg)
+        locals_ = set()
+        nested_params = set()
+        for n in ast.walk(node):
+            if isinstance(n, ast.Name) and isinstance(n.ctx, ast.Store):
+                locals_.add(n.id)
+            if isinstance(n, ast.FunctionDef) and n is not node:
+                nested_params |= {a.arg for a in n.args.args}
+                if n.args.kwarg:
+                    nested_params.add(n.args.kwarg.arg)
+                if n.args.vararg:
+                    nested_params.add(n.args.vararg.arg)
+            if isinstance(n, (ast.Global, ast.Nonlocal)):
+                params |= set(n.names)
+        locals_ -= params
+        locals_ -= nested_params
+        locals_ = {x for x in locals_ if not x.startswith('__')}
+        for n in ast.walk(node):
+            if isinstance(n, ast.Name) and n.id in locals_:
+                n.id = n.id + '_rn'
+        return node
+
+
 def benign_variants(repo):
     """{name: overlay}"""
     out = {}
@@ -154,6 +185,8 @@ def benign_variants(repo):
     out['range(0, n) <-> range(n)'] = {k: ast.unparse(ast.fix_missing_locations(RangeSpelling().visit(ast.parse(v)))) + '\n' for k, v in srcs.items()}
     out['commutative operands of + and * swapped inside subscripts'] = {
         k: ast.unparse(ast.fix_missing_locations(SwapCommutative().visit(ast.parse(v)))) + '\n' for k, v in srcs.items()}
+    out['every local variable renamed (x -> x_rn)'] = {
+        k: ast.unparse(ast.fix_missing_locations(RenameLocals().visit(ast.parse(v)))) + '\n' for k, v in srcs.items()}
     return out
 
 
